@@ -89,7 +89,7 @@ def judge_write(trace, w, rec):
         out.append(_v("handle_leak", "output file still open after dump_many", trace))
     if raise_at is None:
         if exc is not None:
-            out.append(_v("spurious_error", f"dump_many of valid frames failed: {et}: {exc}", trace, et))
+            out.append(_v("spurious_error", f"dump_many of valid frames failed: {et}: {c07._s(exc)}", trace, et))
             return out
     else:
         if exc is None:
@@ -253,7 +253,7 @@ def check_source(trace, stats=None, cuts=None, corruptions=None):
         raise_at = src.get("raise_at") if src["iter_kind"] == "gen_raise" else None
         nexp = len(src["objs"]) if raise_at is None else min(len(src["objs"]), raise_at)
         if base["exc"] is not None:
-            out.append(_v("reload_failed", f"file written by dump_many does not load: {base['exc']}", trace))
+            out.append(_v("reload_failed", f"file written by dump_many does not load: {c07._s(base['exc'])}", trace))
         elif len(F) != nexp:
             out.append(_v("frame_count", f"{nexp} frames written, {len(F)} frames read back", trace))
         else:
@@ -270,7 +270,7 @@ def check_source(trace, stats=None, cuts=None, corruptions=None):
                         one = iodata.load_one(name, fmt=fmt)
                     n_eval += 2
                 except Exception as exc:  # noqa: BLE001
-                    out.append(_v("single_roundtrip_failed", f"frame {i}: dump_one/load_one failed: {exc}", trace))
+                    out.append(_v("single_roundtrip_failed", f"frame {i}: dump_one/load_one failed: {c07._s(exc)}", trace))
                     break
                 if canon.iodata_digest(one) != F[i]:
                     d = canon.diff(canon.iodata_canon(one), canon.iodata_canon(base["frames"][i]))
@@ -298,7 +298,7 @@ def check_source(trace, stats=None, cuts=None, corruptions=None):
                     one = iodata.load_one(name, fmt=fmt)
                 n_eval += 1
             except Exception as exc:  # noqa: BLE001
-                out.append(_v("frame_not_single_loadable", f"frame {i} (lines {prev}) does not load on its own: {exc}", trace))
+                out.append(_v("frame_not_single_loadable", f"frame {i} (lines {prev}) does not load on its own: {c07._s(exc)}", trace))
                 break
             if canon.iodata_digest(one) != F[i]:
                 d = canon.diff(canon.iodata_canon(one), canon.iodata_canon(base["frames"][i]))
